@@ -126,7 +126,9 @@ def rule_nitoff(ctx: Ctx) -> List[Ob]:
     head = [n for n in mm.cfg.nodes if n.kind == "loophead" and n.owner is mm.loop][0]
     e = kw(st, "nit")
     need(e is not None, "callback state has no nit=")
-    c1 = _nit_offset_expr(e, nit)
+    from ..flow import Expander
+    ex = Expander(ctx, mm.f)
+    c1 = _nit_offset_expr(ex.expand(cbn, e, 4), nit)
     fin = mm.result_of_return(mm.final_return)
     c2 = _nit_offset_expr(kw(fin, "nit"), nit) if fin is not None and kw(fin, "nit") is not None else None
     retn = mm.cfg.node_of(mm.final_return)
@@ -159,6 +161,10 @@ def _path_incs(mm, start: Node, stop: Node, nit: str, no_reenter: bool = False) 
         for k, v, how in node_defs(n):
             if k == nit and how == "aug" and isinstance(getattr(n.ast, "value", None), ast.Constant):
                 d = n.ast.value.value if isinstance(n.ast.op, ast.Add) else -n.ast.value.value
+            elif k == nit and how == "bind" and v is not None and cfg.in_loop(n, mm.loop):
+                from ..flow import Expander
+                o2 = _nit_offset_expr(Expander(mm.ctx, mm.f).expand(n, v, 4), nit)
+                d = o2 if o2 is not None else 99
         for b, lab in cfg.succ[n]:
             if lab == "exc":
                 continue
